@@ -258,6 +258,7 @@ func driveC05(o opts) error {
 		oracle := ""
 		handover := false
 		bigBatch := false
+		follow := "" // the row the last direct Update wrote
 		clean := true // every step so far ended in a state that is unique on all schema indexes
 		uniqueFinal := func(rows map[string]map[string]val.Val) bool {
 			for _, s := range specs {
@@ -415,6 +416,22 @@ func driveC05(o opts) error {
 						u = gen.UUIDn(999999)
 					}
 					r := genRow()
+					if prev, ok := shadow[follow]; ok && g.Chance(0.6) {
+						// the row that was updated last is updated again, in one column only: the index entries the
+						// earlier update wrote for the other columns must stay as they are
+						u = follow
+						r = map[string]val.Val{}
+						for k, v := range prev {
+							r[k] = v
+						}
+						cols := c05Cols()
+						c := cols[g.Intn(len(cols))]
+						for try := 0; try < 5 && r[c.Name].Key() == prev[c.Name].Key(); try++ {
+							r[c.Name] = genRow()[c.Name]
+						}
+						w.Count("step:same row again, one column")
+					}
+					follow = u
 					_, err = rcache.Update(u, db.Make(T, u, r), chk)
 					if err == nil {
 						shadow[u] = r
